@@ -5,32 +5,13 @@
    values of wider fields), bodies shorter than the minimum, ordered pairs for
    reuse, and totality inputs (prefixes, byte substitutions, pseudo-random
    strings).  Evaluated, not explored: one ASSUME prints every vector. *)
-EXTENDS LayerTables, Json
+EXTENDS LayerExpect, Json
 
 CONSTANTS Seed, Family, Tier
 
-Without(f, S) == [k \in (DOMAIN f) \ S |-> f[k]]
 Rnd(k, i) == ((k + 3) * 7919 + (i + 1) * 104729 + (Seed + 1) * 1299709 + (k * i) * 31) % 256
 RndBytes(k, n) == [i \in 1..n |-> Rnd(k, i)]
 
-\* ----------------------------------------------------- expected Go projections
-ButtonsFalse == [n \in {"StandbyButtonDisableAllowed", "DiagnosticInterruptButtonDisableAllowed", "ResetButtonDisableAllowed",
-                        "PowerOffButtonDisableAllowed", "StandbyButtonDisabled", "DiagnosticInterruptButtonDisabled",
-                        "ResetButtonDisabled", "PowerOffButtonDisabled"} |-> FALSE]
-LEval(b) == b[1] + 256 * b[2] + 65536 * b[3] + 16777216 * b[4]          \* only used when b[4] < 128
-Expected(name, T, rec) ==
-  LET p == Project(T, rec) IN
-  CASE name \in {"GetChassisStatusRsp3", "GetChassisStatusRsp4"} ->
-         (Without(p, {"identifySupported", "identifyState"})
-          @@ [ChassisIdentifyState |-> IF rec["identifySupported"] THEN rec["identifyState"] ELSE 255])
-         @@ (IF name = "GetChassisStatusRsp3" THEN ButtonsFalse ELSE <<>>)
-    [] name = "GetSessionInfoRsp18" ->
-         Without(p, {"protocol", "ip4"}) @@ [IsIPMIv2 |-> rec["protocol"] = 1, IP |-> Repeat(0, 10) \o <<255, 255>> \o rec["ip4"]]
-    [] name = "GetPowerReadingRsp" ->
-         Without(p, {"periodMs"}) @@ [Period |-> [s |-> LEval(rec["periodMs"]) \div 1000, ns |-> (LEval(rec["periodMs"]) % 1000) * 1000000]]
-    [] OTHER -> p
-GoLayer(name) == CASE name \in {"GetChassisStatusRsp3", "GetChassisStatusRsp4"} -> "GetChassisStatusRsp"
-                   [] name = "SDRHeader" -> "SDR" [] name = "GetSessionInfoRsp18" -> "GetSessionInfoRsp" [] OTHER -> name
 \* shortest body the layer must accept (optional tails excluded)
 MinLen(name, T) == CASE name = "GetDeviceIDRsp" -> 11 [] name = "GetChassisStatusRsp4" -> 3 [] name = "GetSessionInfoRsp18" -> 3
                      [] OTHER -> Len(Encode(T, Base(T, 0)))
